@@ -45,12 +45,12 @@ ALL_PHASES = ['setup', 'act', 'before-assert', 'assert', 'cleanup']
 INSTR_PHASES = ['setup', 'before-assert', 'assert', 'cleanup']
 BASES = ['s.lit', 'l.lit', 'l.empty', 'p.lit', 'm.lit', 't.lit', 'g.lit', 'n.lit', 'i.lit', 'c.lit', 'f.lit', 'k.lit',
          'o.lit', 'x.lit']
-LINK1 = ['s.ref', 's.pre', 'l.ref', 'l.litref', 'l.instr', 'p.comp', 'p.rel', 'p.pre', 'm.ref', 'm.neg', 'm.eq',
+LINK1 = ['s.ref', 's.pre', 'l.ref', 'l.litref', 'l.instr', 'l.quoted', 'p.comp', 'p.rel', 'p.pre', 'm.ref', 'm.neg', 'm.eq',
          't.ref', 't.filt', 't.lm', 'g.ref', 'g.arg', 'n.ref', 'n.tm', 'n.im', 'i.ref', 'i.int',
          'c.name', 'c.ref', 'f.ref', 'f.tm', 'k.ref', 'k.sel', 'o.name', 'o.ref', 'x.ref', 'x.str']
 LINK2 = ['s.two', 'l.two', 'p.relcomp', 'm.or', 't.seq']
 DATA_BASES = ['s.lit', 'l.lit', 'l.empty', 'p.lit']
-DATA_LINK1 = ['s.ref', 's.pre', 'l.ref', 'l.litref', 'l.instr', 'p.comp', 'p.rel', 'p.pre']
+DATA_LINK1 = ['s.ref', 's.pre', 'l.ref', 'l.litref', 'l.instr', 'l.quoted', 'l.quoted', 'p.comp', 'p.rel', 'p.pre']
 # quick: chains of two links - the data types and every shape with a "made up of just strings" slot
 QUICK_CHAIN = DATA_LINK1 + ['i.int', 'c.name', 'o.name', 'x.ref', 'x.str']
 CTXS = ['data', 'comp', 'relsym', 'pre', 'int', 'range', 'env', 'pname', 'fname', 'tm', 'tt', 'pgm', 'lm', 'im',
@@ -106,6 +106,7 @@ U = 'abcd'
 VALUE = {
     's.lit': '{l}', 's.ref': '@[{X}]@', 's.pre': 'p@[{X}]@', 's.two': '@[{X}]@-@[{Y}]@',
     'l.lit': "{l} '{l} x'", 'l.empty': '', 'l.ref': '@[{X}]@', 'l.litref': 'e @[{X}]@', 'l.instr': '"<@[{X}]@>"',
+    'l.quoted': '"@[{X}]@" x',
     'l.two': '@[{X}]@ @[{Y}]@',
     'p.lit': '{relopt}{l}', 'p.comp': '-rel-tmp @[{X}]@', 'p.rel': '-rel {X} {l}', 'p.pre': '@[{X}]@/{l}',
     'p.relcomp': '-rel {X} @[{Y}]@',
